@@ -78,6 +78,16 @@ def main(mod):
     a = ap.parse_args()
     t0 = time.time()
     cases = list(mod.cases(a.prop, a.tier, a.seed))
+    # structured cases, independent of the seed: one recorded input behind every known finding (bounded/structured_cases.json, written by
+    # tools/find_structured_cases.py), so that a listed finding is re-established on every run and not only when the seed happens to hit it
+    try:
+        sc = json.load(open(os.path.join(os.path.dirname(os.path.abspath(__file__)), "structured_cases.json")))
+        have = {json.dumps(c.get("key"), sort_keys=True, default=str) for c in cases}
+        for c in sc.get(os.path.basename(getattr(mod, "__file__", "")), {}).get(a.prop, []):
+            if json.dumps(c.get("key"), sort_keys=True, default=str) not in have:
+                cases.append(c)
+    except FileNotFoundError:
+        pass
     if a.only:
         cases = [c for c in cases if a.only in str(c.get("key"))]
     tmo = getattr(mod, "CASE_TIMEOUT", {"quick": 60, "thorough": 300})[a.tier]
